@@ -432,7 +432,7 @@ impl TwinU {
                 ev!(self.ctx, "fetch bt={bt} -> direct {:?} json {:?}", d.as_ref().map(|q| q.quotes.len()).map_err(|e| e.status), j.as_ref().map(|q| q.quotes.len()).map_err(|e| e.status));
                 status_rule(&mut self.ctx, "fetch_quotes", d.is_ok(), &j.as_ref().map(|_| ()).map_err(|e| e.clone()));
                 if let (Ok(a), Ok(b)) = (&d, &j) {
-                    rule!(self.ctx, "C20", "body", "fetch_quotes", quotes_eq(&a.quotes, &b.quotes), "fetch_quotes: in-process {:?} vs HTTP {:?}", a.quotes, b.quotes);
+                    rule!(self.ctx, "C20", "body", "fetch_quotes", quotes_eq(&a.quotes, &b.quotes), "fetch_quotes: in-process {} vs HTTP {}", crate::e1u::canon_quotes(&a.quotes), crate::e1u::canon_quotes(&b.quotes));
                     for q in a.quotes.values() {
                         if let Err(e) = round_trip(q) {
                             self.ctx.fail("C20", "round-trip", "quote", format!("quote does not survive serialise/deserialise: {e}"));
@@ -761,7 +761,7 @@ impl TwinJ {
                 ev!(self.ctx, "fetch bt={bt} -> direct {:?} json {:?}", d.as_ref().map(|q| q.quotes.len()).map_err(|e| e.status), j.as_ref().map(|q| q.quotes.len()).map_err(|e| e.status));
                 status_rule(&mut self.ctx, "fetch_quotes", d.is_ok(), &j.as_ref().map(|_| ()).map_err(|e| e.clone()));
                 if let (Ok(a), Ok(b)) = (&d, &j) {
-                    rule!(self.ctx, "C20", "body", "fetch_quotes", quotes_eq(&a.quotes, &b.quotes), "fetch_quotes: in-process {:?} vs HTTP {:?}", a.quotes, b.quotes);
+                    rule!(self.ctx, "C20", "body", "fetch_quotes", quotes_eq(&a.quotes, &b.quotes), "fetch_quotes: in-process {} vs HTTP {}", crate::e1u::canon_quotes(&a.quotes), crate::e1u::canon_quotes(&b.quotes));
                     for q in a.quotes.values() {
                         if let Err(e) = round_trip(q) {
                             self.ctx.fail("C20", "round-trip", "quote", format!("quote does not survive serialise/deserialise: {e}"));
@@ -805,7 +805,17 @@ fn gen_jura_order(rng: &mut Rng, ds: &DatasetSpec, k: usize, tag: u64, edge_p: f
     let is_buy = kind_idx % 2 == 0;
     let sz = if rng.one_in(8) { format!("{tag}.5") } else { format!("{tag}") };
     let px = crate::e1j::price_near(rng, ds, &symbol, k + 1);
-    let limit_px = if rng.one_in(3) { format!("{:.2}", px) } else { format!("{}", px) };
+    let mut limit_px = if rng.one_in(3) { format!("{:.2}", px) } else { format!("{}", px) };
+    let mut sz = sz;
+    // strings at the edge of what the exchange accepts: they parse, so the in-process call takes them
+    // without a panic, and the transport has no business treating them differently (zero is the natural
+    // "sell at any price")
+    if rng.chance(edge_p) {
+        limit_px = rng.pick(&["0", "0.0", "-1", "-0.25", "1e2", "+5", "0.000001", "00012.50"]).to_string();
+    }
+    if rng.chance(edge_p / 2.0) {
+        sz = rng.pick(&["0", "0.0", "-1", "1e1", "+3"]).to_string();
+    }
     let serde_way = rng.one_in(2);
     let kind = match kind_idx / 2 {
         0 => JKind::Ioc,
